@@ -279,8 +279,10 @@ fn parse_outcome(exit_code: Option<i32>, stdout: &str, stderr: &str, timed_out: 
                 .to_owned();
             Outcome::BatchErr(message)
         }
-        _ => Outcome::Panic(format!(
-            "unparsable subprocess result: exit {:?}, stdout {:?}, stderr {:?} at subprocess:1",
+        // what the binary printed is not understood (its wording may have changed): that is
+        // the harness's problem, not a violation
+        _ => Outcome::BatchErr(format!(
+            "harness: unparsable subprocess result: exit {:?}, stdout {:?}, stderr {:?}",
             exit_code, stdout, stderr
         )),
     }
